@@ -407,7 +407,46 @@ def oracle_builder_names(rng):
     return None
 
 
+def oracle_component_placement(rng):
+    """a component keeps its identity through compilation, solving and pickling: variable_map[name][idx] is the column that carries the coefficients
+    of component idx, so after a solve M[idx] holds the value of M[idx] (2-d non-square, 3-d, symmetric and sliced Variables), also for an unpickled Problem"""
+    import pickle
+    import sageopt.coniclifts as cl
+    with warnings.catch_warnings():
+        warnings.simplefilter('ignore')
+        for sh, sym in (((2, 3), False), ((3, 2), False), ((2, 2, 2), False), ((1, 3, 2), False), ((3, 3), True), ((4,), False)):
+            M = cl.Variable(shape=sh, name='place_%s_%d' % ('x'.join(map(str, sh)), sym), var_properties=(['symmetric'] if sym else None))
+            target = np.arange(1.0, 1.0 + int(np.prod(sh))).reshape(sh)
+            if sym:
+                target = (target + target.T) / 2.0
+            w = rng.choice([1.0, 2.0])
+            prob = cl.Problem(cl.MIN, w * cl.sum(M), [M >= target, M <= target + 5.0])
+            for label, pr in (('the Problem', prob), ('the Problem after a pickle round trip', None)):
+                if pr is None:
+                    pr = pickle.loads(pickle.dumps(prob))
+                st, val = pr.solve(verbose=False)
+                Mv = [v for v in pr.all_variables if v.name == M.name][0]
+                got = np.asarray(Mv.value, dtype=float)
+                if st != 'solved' or got.shape != target.shape or not np.allclose(got, target, atol=1e-5):
+                    return ('min %g * sum(M) s.t. T <= M <= T + 5 with M of shape %s%s: after solving %s, M.value is %s; every component M[idx] has the optimum T[idx] = %s'
+                            % (w, sh, ' (symmetric)' if sym else '', label, got.tolist(), target.tolist()))
+                vm = np.asarray(pr.variable_map[M.name])
+                A = pr.A.toarray()
+                for idx in np.ndindex(*sh):
+                    col = int(vm[idx])
+                    rows = [r for r in range(A.shape[0]) if A[r, col] != 0]
+                    want_rows = 2 if not (sym and idx[0] != idx[1]) else 4
+                    if len(rows) != want_rows:
+                        return 'variable_map[%s]%s = %d is a column with %d nonzero rows (expected %d: the two bounds on that component)' % (M.name, idx, col, len(rows), want_rows)
+    return None
+
+
 def run(ctx):
+    why = oracle_component_placement(ctx.rng)
+    ctx.evaluations += 12
+    ctx.suites['component_placement'] = {'cases': 12, 'failure': why}
+    if why:
+        ctx.problem('oracle', 'property fails on the implementation: ' + why, inputs={'suite': 'component_placement'}, failing_input_found=True)
     cases = []
     for _ in range(ctx.n(80, 800)):
         hc, meta, created = run_history(ctx.rng, ctx.rng.randint(3, 10))
